@@ -77,6 +77,23 @@ Reach(S, frontier, seen) == IF frontier \subseteq seen THEN seen
                             ELSE Reach(S, UNION {HardEdges(S, n) : n \in frontier \ seen}, seen \cup frontier)
 InputCycle(S, n) == n \in Reach(S, HardEdges(S, n), {})
 
+\* ---- default value cycles (spec 3.10, InputObjectDefaultValueHasCycle) ---------------------
+\* Coercing the empty object to an input object type applies the defaults of the fields that are not given, and
+\* so on inside those defaults: a field default that is reached again while it is being applied never ends.
+\* vis = the fields <<type, field>> whose default is being applied
+RECURSIVE ObjDefaultCycle(_, _, _, _)
+ObjDefaultCycle(S, n, v, vis) ==
+  IF v.t = "l" THEN \E k \in 1..Len(v.v) : ObjDefaultCycle(S, n, v.v[k], vis)
+  ELSE IF v.t # "o" THEN FALSE
+  ELSE \E i \in 1..Len(T(S, n).inputFields) :
+         LET f == T(S, n).inputFields[i] nt == NamedOf(f.type) IN
+         /\ Kind(S, nt) = "INPUT_OBJECT"
+         /\ IF f.name \in KeysOf(v)
+            THEN ObjDefaultCycle(S, nt, v.kv[CHOOSE j \in 1..Len(v.kv) : v.kv[j][1] = f.name][2], vis)
+            ELSE /\ f.hasDefault
+                 /\ (<<n, f.name>> \in vis \/ ObjDefaultCycle(S, nt, f.default, vis \cup {<<n, f.name>>}))
+DefaultCycle(S, n) == ObjDefaultCycle(S, n, [t |-> "o", kv |-> <<>>], {})
+
 \* ---- the rules ------------------------------------------------------------------------
 InputValueProblems(S, ivs, what) ==
   UNION { (IF ~IsInputType(S, ivs[i].type) THEN {what \o "-type-not-input"} ELSE {})
@@ -122,6 +139,7 @@ TypeProblems(S, t) ==
          \cup (IF t.oneOf /\ \E a \in 1..Len(t.inputFields) : IsNN(t.inputFields[a].type) THEN {"oneof-non-nullable"} ELSE {})
          \cup (IF t.oneOf /\ \E a \in 1..Len(t.inputFields) : t.inputFields[a].hasDefault THEN {"oneof-default"} ELSE {})
          \cup (IF InputCycle(S, t.name) THEN {"input-cycle"} ELSE {})
+         \cup (IF DefaultCycle(S, t.name) THEN {"default-cycle"} ELSE {})
     [] OTHER -> {}
 
 RootProblems(S) ==
